@@ -23,6 +23,7 @@ func c15r5(c *core.Ctx) {
 		}
 	}
 	sort.Slice(fns, func(i, j int) bool { return core.SSAName(fns[i]) < core.SSAName(fns[j]) })
+	var inFn func(f *ssa.Function, depth int) bool
 	scriptOrdered := func(less ssa.Value) bool {
 		var f *ssa.Function
 		switch x := less.(type) {
@@ -34,6 +35,10 @@ func c15r5(c *core.Ctx) {
 		if f == nil || f.Blocks == nil {
 			return true // unknown comparator: assume script-level
 		}
+		return inFn(f, 0)
+	}
+	// the comparison may sit in a helper of the comparator (followed to depth 2)
+	inFn = func(f *ssa.Function, depth int) bool {
 		for _, b := range f.Blocks {
 			for _, in := range b.Instrs {
 				ci, ok := in.(ssa.CallInstruction)
@@ -50,6 +55,9 @@ func c15r5(c *core.Ctx) {
 					}
 				}
 				if cal := com.StaticCallee(); cal != nil && (cal.Name() == "Compare" || cal.Name() == "CompareTypes") && core.RepoFunc(cal) {
+					return true
+				}
+				if cal := com.StaticCallee(); cal != nil && cal.Blocks != nil && core.RepoFunc(cal) && depth < 2 && inFn(cal, depth+1) {
 					return true
 				}
 			}
